@@ -46,6 +46,11 @@ func (t Tree) String() string {
 // Write out the entire AST to a strings.Builder.
 func (t Tree) Write(s *strings.Builder) {
 	for _, n := range t.Nodes {
+		if comment, ok := n.(Comment); ok && comment.Text == "" {
+			// An empty comment still separates what is above it from what is below it
+			s.WriteString("#\n")
+			continue
+		}
 		n.Write(s)
 	}
 }
